@@ -188,12 +188,28 @@ def realism_constraints(terms):
     return out
 
 
-def concretize(eng, ob, fi, contract, timeout_ms=8000):
-    """-> {"order": [...], "params": {...}} or (None, reason)"""
+def _quantified(t):
+    todo, seen = [t], set()
+    while todo:
+        x = todo.pop()
+        if x.get_id() in seen:
+            continue
+        seen.add(x.get_id())
+        if z3.is_quantifier(x):
+            return True
+        todo.extend(x.children())
+    return False
+
+
+def concretize(eng, ob, fi, contract, timeout_ms=8000, drop_quantified=False):
+    """-> {"order": [...], "params": {...}} or (None, reason).
+    drop_quantified: candidate search for an UNDECIDED obligation -- quantified hypotheses are left out, so the
+    model is only a candidate; it counts only if the native replay shows it is a legal input that violates the contract."""
     entry_env, entry_heap = ob.entry
     s = z3.Solver()
     s.set("timeout", timeout_ms)
-    terms = list(ob.hyps) + [z3.Not(ob.goal)]
+    hyps = [h for h in ob.hyps if not (drop_quantified and _quantified(h))]
+    terms = list(hyps) + [z3.Not(ob.goal)]
     unf = unfold_rec_apps(terms)
     for t in terms + unf + bm.instantiate_axioms(terms + unf):
         s.add(t)
